@@ -48,7 +48,7 @@ fn main() {
             // The cost of validating a record in TLC grows with its size, and the scale shapes of
             // the generators (inputs of 4 KB ... 2 MB) dominate it.  A run may therefore be given
             // a budget: VERIF_BIG_MAX = largest admissible input, VERIF_BIG_BUDGET = total size of
-            // all inputs above 4000 bytes.  A case that does not fit is not run (deterministic:
+            // all inputs above 40 000 JSON characters (about 10 000 bytes).  A case that does not fit is not run (deterministic:
             // the generator state has advanced all the same).  Unset = no limit (thorough tier).
             let envn = |k: &str| std::env::var(k).ok().and_then(|v| v.parse::<usize>().ok());
             let big_max = envn("VERIF_BIG_MAX").unwrap_or(usize::MAX);
@@ -58,8 +58,9 @@ fn main() {
                 let Some((op, input)) = g.next(&mut rng, i) else { break };
                 if !from_cases && (big_max != usize::MAX || big_left != usize::MAX) {
                     let sz = input.to_string().len();
-                    if sz > 4000 {
-                        if sz > big_max || sz > big_left { continue; }
+                    if sz > big_max { continue; }
+                    if sz > 40000 {
+                        if sz > big_left { continue; }
                         big_left -= sz;
                     }
                 }
